@@ -109,6 +109,8 @@ def reductions(sc):
         c["frames"]["offsets"] = [-o for o in reversed(offs)]
         if c["frames"].get("split"):
             c["frames"]["split"] = list(reversed(c["frames"]["split"]))
+        if c["frames"].get("per_file"):
+            c["frames"]["per_file"] = list(reversed(c["frames"]["per_file"]))
         for k in ("amp_u", "amp_v"):
             if c["flow"].get(k):
                 c["flow"][k] = list(reversed(c["flow"][k]))
@@ -118,7 +120,12 @@ def reductions(sc):
     if fr.get("split") and len(fr["split"]) > 1:
         c = _cp(sc)
         del c["frames"]["split"]
+        c["frames"].pop("per_file", None)
         yield "frames:one_file", c
+    if fr.get("per_file"):
+        c = _cp(sc)
+        del c["frames"]["per_file"]
+        yield "frames:common_packing", c
     if fr.get("storage") == "i2":
         c = _cp(sc)
         del c["frames"]["storage"]
@@ -142,6 +149,8 @@ def reductions(sc):
                         c["frames"]["split"][fi] -= 1
                         break
                     acc += m
+                if len([m for m in c["frames"]["split"] if m > 0]) != len(c["frames"]["split"]):
+                    c["frames"].pop("per_file", None)
                 c["frames"]["split"] = [m for m in c["frames"]["split"] if m > 0]
             if _covers(c):
                 yield f"frames:drop{i}", c
